@@ -82,6 +82,8 @@ def shape_ops(scope, spelling, urikey, kind, mask, idmode, local_id="r1"):
 PROV_ATTR_NAMES = [("P", l, Q("prov")) for l in ("type", "label", "value", "location", "role")]
 # an attribute name in the XML Schema namespace (PROV-XML binds 'xsd' to the URI without '#')
 XSD_ATTR_NAME = ("X", "maxLength", Q("xsd"))
+# a name in the PROV namespace that is not one of PROV-DM's attributes (its local part resembles the time attributes)
+PROV_OTHER_ATTR_NAME = ("P", "generatedAtTime", Q("prov"))
 # a non-ASCII (but NCName) attribute-name local part
 NONASCII_ATTR_NAME = ("A", "cl\u00e9_\u6f22", Q("ex"))
 # values that compare equal in Python but differ in kind, placed on DIFFERENT records / attributes
@@ -114,6 +116,8 @@ def extras(tier, which, spelling, urikey):
             out.append((("at", XSD_ATTR_NAME, v),))
         for v in ("s_a", "s_uni", "i_2", "q_exA", "l_lang"):
             out.append((("at", NONASCII_ATTR_NAME, v),))
+        for v in values.VALUES:
+            out.append((("at", PROV_OTHER_ATTR_NAME, v),))
         for a, b in PAIRS:
             out.append((("at", k, a), ("at", k, b)))
             out.append((("at", PROV_ATTR_NAMES[0], a), ("at", PROV_ATTR_NAMES[0], b)))
